@@ -486,3 +486,288 @@ Example never_above_size_witness :
 Proof.
   split; [repeat constructor; lia|]. vm_compute. reflexivity.
 Qed.
+
+(* ================================================================ what one pass does, exactly *)
+(* the exit statuses the reaping step hands to the replacement loop, and how many workers
+   the loop is asked to start *)
+Definition pass_codes (s : pool) : list Z := map (exit_of s) (reaped s).
+Definition missing (s : pool) : nat := Z.to_nat (nprocs s - Z.of_nat (length (kept s))).
+
+(* iteration i of Pool._repopulate_pool consults the limiter iff some worker was reaped by this
+   pass and either exitcodes[i] is neither 0 nor EX_RECYCLE, or there is no exitcodes[i]
+   (IndexError: more workers are missing than were reaped) *)
+Definition charged (codes : list Z) (i : nat) : bool :=
+  match codes with
+  | [] => false
+  | _ => match nth_error codes i with Some c => negb (clean_code c) | None => true end
+  end.
+
+(* the replacement loop seen from the limiter: final limiter, number of workers started, and
+   whether restart_state.step() raised (then nothing more is started) *)
+Fixpoint lim_loop (fuel i : nat) (codes : list Z) (now : Z) (r : rs) : rs * nat * bool :=
+  match fuel with
+  | O => (r, O, false)
+  | S f =>
+    let (r1, raised) := if charged codes i then Restart.step r now else (r, false) in
+    if raised then (r1, O, true)
+    else let '(r2, n, b) := lim_loop f (S i) codes now r1 in (r2, S n, b)
+  end.
+
+Lemma lim_loop_started : forall fuel i codes now r r2 n b,
+    lim_loop fuel i codes now r = (r2, n, b) ->
+    (n <= fuel)%nat /\ (b = false -> n = fuel) /\ (b = true -> (n < fuel)%nat /\ charged codes (i + n) = true).
+Proof.
+  induction fuel as [|f IH]; intros i codes now r r2 n b H; cbn [lim_loop] in H.
+  - inversion H; subst. split; [lia|]. split; [reflexivity|discriminate].
+  - destruct (charged codes i) eqn:Ec.
+    + destruct (Restart.step r now) as [r1 raised]. destruct raised.
+      * inversion H; subst. split; [lia|]. split; [discriminate|]. intros _. split; [lia|].
+        rewrite Nat.add_0_r. exact Ec.
+      * destruct (lim_loop f (S i) codes now r1) as [[r2' n'] b'] eqn:El. inversion H; subst.
+        destruct (IH _ _ _ _ _ _ _ El) as (A & B & C). split; [lia|]. split.
+        -- intros Hb. rewrite (B Hb). reflexivity.
+        -- intros Hb. destruct (C Hb) as [C1 C2]. split; [lia|]. rewrite <- C2. f_equal. lia.
+    + destruct (lim_loop f (S i) codes now r) as [[r2' n'] b'] eqn:El. inversion H; subst.
+      destruct (IH _ _ _ _ _ _ _ El) as (A & B & C). split; [lia|]. split.
+      * intros Hb. rewrite (B Hb). reflexivity.
+      * intros Hb. destruct (C Hb) as [C1 C2]. split; [lia|]. rewrite <- C2. f_equal. lia.
+Qed.
+
+(* Pool._repopulate_pool in RUN state, asked for no more workers than the size allows: it never
+   fails to find a slot index (no AssertionError), the limiter ends as lim_loop says, the workers
+   started are appended to the list with the next process numbers, and the call raises
+   RestartFreqExceeded exactly when the limiter did *)
+Lemma repopulate_spec : forall fuel i codes s,
+    pstate s = 0 ->
+    ((0 < fuel)%nat -> Z.of_nat (length (wlist s)) + Z.of_nat fuel <= nprocs s) ->
+    forall r2 n b, lim_loop fuel i codes (now s) (rst s) = (r2, n, b) ->
+    exists s', repopulate fuel i codes s = (s', if b then RExc 10 else RNone)
+               /\ rst s' = r2
+               /\ wlist s' = wlist s ++ map Z.of_nat (seq (length (procs s)) n)
+               /\ length (procs s') = (length (procs s) + n)%nat
+               /\ pstate s' = 0.
+Proof.
+  induction fuel as [|f IH]; intros i codes s Hp Hg r2 n b Hl.
+  - cbn [lim_loop] in Hl. inversion Hl; subst. exists s. cbn [repopulate seq map].
+    rewrite app_nil_r, Nat.add_0_r. auto.
+  - cbn [lim_loop] in Hl. cbn [repopulate]. rewrite Hp. cbn [Z.eqb negb].
+    match goal with |- context [if ?c then Restart.step (rst s) (now s) else (rst s, false)] =>
+      change c with (charged codes i) end.
+    destruct (if charged codes i then Restart.step (rst s) (now s) else (rst s, false)) as [r1 raised].
+    destruct raised.
+    + inversion Hl; subst. exists (with_rst s r2). cbn [seq map]. rewrite app_nil_r, Nat.add_0_r. auto.
+    + assert (Hlt : Z.of_nat (length (wlist (with_rst s r1))) < nprocs (with_rst s r1))
+        by (cbn [wlist nprocs with_rst]; specialize (Hg ltac:(lia)); lia).
+      destruct (avail_index_ok _ Hlt) as (ix & Hix & _). rewrite Hix.
+      destruct (lim_loop f (S i) codes (now s) r1) as [[r2' n'] b'] eqn:El. inversion Hl; subst.
+      set (s1 := start_worker (with_rst s r1) ix).
+      assert (Hp1 : pstate s1 = 0) by exact Hp.
+      assert (Hg1 : (0 < f)%nat -> Z.of_nat (length (wlist s1)) + Z.of_nat f <= nprocs s1).
+      { intros _. unfold s1. cbn [wlist nprocs start_worker with_rst]. rewrite app_length. cbn [length].
+        specialize (Hg ltac:(lia)). lia. }
+      destruct (IH (S i) codes s1 Hp1 Hg1 r2 n' b El) as (s' & E & A & B & C & D).
+      exists s'. split; [exact E|]. split; [exact A|]. split; [|split; [|exact D]].
+      * rewrite B. unfold s1. cbn [wlist procs start_worker with_rst]. rewrite app_length. cbn [length seq map].
+        rewrite <- app_assoc. cbn [app]. rewrite Nat.add_1_r. reflexivity.
+      * rewrite C. unfold s1. cbn [procs start_worker with_rst]. rewrite app_length. cbn [length]. lia.
+Qed.
+
+Lemma join_exited_fields s :
+  wlist (fst (join_exited s)) = kept s /\ nprocs (fst (join_exited s)) = nprocs s
+  /\ pstate (fst (join_exited s)) = pstate s /\ procs (fst (join_exited s)) = procs s
+  /\ rst (fst (join_exited s)) = rst s /\ now (fst (join_exited s)) = now s
+  /\ snd (join_exited s) = pass_codes s.
+Proof.
+  destruct (join_exited_shape s) as (A & B & C). pose proof (procs_join_exited s) as D.
+  repeat (split; [assumption|]).
+  unfold join_exited, pass_codes.
+  set (s1 := mark_all_lost s).
+  assert (Hp1 : procs s1 = procs s) by reflexivity.
+  assert (Hr : filter (exited s1) (rev (wlist s1)) = reaped s).
+  { unfold reaped. apply filter_ext_eq. apply exited_procs. exact Hp1. }
+  rewrite Hr.
+  assert (Hm : map (exit_of s1) (reaped s) = map (exit_of s) (reaped s))
+    by (apply map_ext; apply exit_of_procs; exact Hp1).
+  destruct (reaped s) as [|c0 cl0]; cbn [fst snd rst now]; [auto|]. rewrite Hm. auto.
+Qed.
+
+(* one supervision pass in RUN state *)
+Theorem tick_spec s :
+  pstate s = 0 ->
+  forall r2 n b, lim_loop (missing s) 0 (pass_codes s) (now s) (rst s) = (r2, n, b) ->
+  exists s', do_tick s = (s', if b then RExc 10 else RNone)
+             /\ rst s' = r2
+             /\ wlist s' = kept s ++ map Z.of_nat (seq (length (procs s)) n)
+             /\ length (procs s') = (length (procs s) + n)%nat
+             /\ nprocs s' = nprocs s
+             /\ jobs s' = map (tick_job s) (jobs s).
+Proof.
+  intros Hp r2 n b Hl.
+  pose proof (tick_jobs s) as Hj. pose proof (SemB_sn) as _.
+  assert (Hn : nprocs (fst (do_tick s)) = nprocs s).
+  { unfold do_tick. destruct (join_exited_fields s) as (_ & B & _).
+    destruct (join_exited s) as [s1 codes]. cbn [fst] in B.
+    pose proof (nprocs_repopulate (Z.to_nat (nprocs s1 - Z.of_nat (length (wlist s1)))) 0 codes s1) as H.
+    destruct (repopulate _ 0 codes s1) as [s2 r]. cbn [fst] in H. destruct r; cbn [fst]; congruence. }
+  unfold do_tick in *. destruct (join_exited_fields s) as (A & B & C & D & E & F & G).
+  destruct (join_exited s) as [s1 codes]. cbn [fst snd] in *. subst codes.
+  assert (Hm : Z.to_nat (nprocs s1 - Z.of_nat (length (wlist s1))) = missing s)
+    by (unfold missing; rewrite A, B; reflexivity).
+  rewrite Hm in *.
+  assert (Hg : (0 < missing s)%nat -> Z.of_nat (length (wlist s1)) + Z.of_nat (missing s) <= nprocs s1)
+    by (unfold missing; rewrite A, B; lia).
+  rewrite <- F, <- E in Hl.
+  destruct (repopulate_spec (missing s) 0 (pass_codes s) s1 ltac:(congruence) Hg r2 n b Hl)
+    as (s2 & E2 & R2 & W2 & P2 & _).
+  rewrite E2 in *. rewrite A, D in *.
+  destruct b.
+  - exists s2. cbn [fst] in *. auto 7.
+  - exists (release_n s2 (length (pass_codes s))). cbn [fst] in *. auto 7.
+Qed.
+
+(* ================================================================ 2. C09: the lifted pass theorem *)
+Lemma charged_clean codes j :
+  Forall (fun c => clean_code c = true) codes -> (codes = [] \/ (j < length codes)%nat) ->
+  charged codes j = false.
+Proof.
+  intros Hc Hj. unfold charged. destruct codes as [|c0 cs]; [reflexivity|].
+  destruct Hj as [Hj|Hj]; [discriminate|].
+  destruct (nth_error (c0 :: cs) j) as [c|] eqn:E.
+  - apply nth_error_In in E. rewrite Forall_forall in Hc. rewrite (Hc _ E). reflexivity.
+  - apply nth_error_None in E. lia.
+Qed.
+
+Lemma lim_loop_uncharged : forall fuel i codes now r,
+    (forall j, (i <= j < i + fuel)%nat -> charged codes j = false) ->
+    lim_loop fuel i codes now r = (r, fuel, false).
+Proof.
+  induction fuel as [|f IH]; intros i codes now r H; cbn [lim_loop]; [reflexivity|].
+  rewrite (H i) by lia. rewrite IH; [reflexivity|]. intros j Hj. apply H. lia.
+Qed.
+
+(* a job whose result has been handled is not touched by a pass (any kind of job) *)
+Lemma tick_job_ready s x : ready x = true -> tick_job s x = x.
+Proof.
+  intros Hr. unfold tick_job, lost_due. rewrite Hr. cbn [negb]. rewrite andb_false_r. cbn [andb].
+  destruct (reaped s); [reflexivity|]. destruct (incache x); [|reflexivity].
+  unfold on_job_down. destruct (acked_by_gone _ _ x); [rewrite Hr|]; reflexivity.
+Qed.
+
+(* C09 "brought back to the configured size": in RUN state, a pass that reaps only workers that
+   exited with status 0 or EX_RECYCLE, and has to start no more workers than it reaped (or reaps
+   nobody: a pure grow), does not raise, does not consult the restart limiter, brings the list to
+   exactly the configured size (or leaves it longer when shrink victims are still alive) by
+   appending `missing` fresh workers, and leaves every job whose result was already handled
+   exactly as it was *)
+Theorem clean_pass s :
+  pstate s = 0 ->
+  Forall (fun c => clean_code c = true) (pass_codes s) ->
+  (reaped s = [] \/ nprocs s - Z.of_nat (length (kept s)) <= Z.of_nat (length (reaped s))) ->
+  exists s', do_tick s = (s', RNone)
+             /\ Z.of_nat (length (wlist s')) = Z.max (nprocs s) (Z.of_nat (length (kept s)))
+             /\ wlist s' = kept s ++ map Z.of_nat (seq (length (procs s)) (missing s))
+             /\ nprocs s' = nprocs s
+             /\ rst s' = rst s
+             /\ (forall j x, get_job s j = Some x -> ready x = true -> get_job s' j = Some x).
+Proof.
+  intros Hp Hc Hm.
+  assert (Hl : lim_loop (missing s) 0 (pass_codes s) (now s) (rst s) = (rst s, missing s, false)).
+  { apply lim_loop_uncharged. intros j Hj. apply charged_clean; [exact Hc|].
+    unfold pass_codes. rewrite map_length. destruct Hm as [Hm|Hm]; [left; rewrite Hm; reflexivity|].
+    right. unfold missing in Hj. lia. }
+  destruct (tick_spec s Hp _ _ _ Hl) as (s' & E & A & B & C & D & F).
+  exists s'. split; [exact E|]. split; [|split; [exact B|split; [exact D|split; [exact A|]]]].
+  - rewrite B, app_length, map_length, seq_length. unfold missing. lia.
+  - intros j x Hg Hr. unfold get_job in *. rewrite F. destruct (j <? 0); [discriminate|].
+    rewrite nth_error_map, Hg. cbn. rewrite tick_job_ready by exact Hr. reflexivity.
+Qed.
+
+(* ---- no exited worker is left in the list by a pass (any state, whatever the pass returns) *)
+Definition NoEx (s : pool) : Prop := forall p, In p (wlist s) -> exited s p = false.
+
+Lemma get_proc_start_worker s ix p :
+  match get_proc s p with
+  | Some q => get_proc (start_worker s ix) p = Some q
+  | None => get_proc (start_worker s ix) p = None
+            \/ get_proc (start_worker s ix) p = Some (mkproc (Z.of_nat (length (procs s))) ix None false false 0)
+  end.
+Proof.
+  unfold get_proc. cbn [procs start_worker]. destruct (p <? 0); [left; reflexivity|].
+  destruct (nth_error (procs s) (Z.to_nat p)) as [x|] eqn:E.
+  - rewrite nth_error_app1 by (apply nth_error_Some; congruence). exact E.
+  - apply nth_error_None in E. rewrite nth_error_app2 by exact E.
+    destruct (Z.to_nat p - length (procs s))%nat as [|k]; cbn; [right; reflexivity|].
+    left. destruct k; reflexivity.
+Qed.
+
+Lemma exited_start_worker s ix p : exited (start_worker s ix) p = exited s p.
+Proof.
+  unfold exited. pose proof (get_proc_start_worker s ix p) as H.
+  destruct (get_proc s p) as [q|]; [rewrite H; reflexivity|].
+  destruct H as [H|H]; rewrite H; reflexivity.
+Qed.
+
+Lemma exited_repopulate : forall fuel i codes s p,
+    exited (fst (repopulate fuel i codes s)) p = exited s p.
+Proof.
+  induction fuel as [|f IH]; intros i codes s p; cbn [repopulate]; [reflexivity|].
+  destruct (negb (pstate s =? 0)); [reflexivity|].
+  match goal with |- context [if ?c then Restart.step (rst s) (now s) else (rst s, false)] =>
+    destruct (if c then Restart.step (rst s) (now s) else (rst s, false)) as [r raised] end.
+  destruct raised; [reflexivity|].
+  destruct (avail_index (with_rst s r)) as [ix|]; [|reflexivity].
+  rewrite IH, exited_start_worker. reflexivity.
+Qed.
+
+Lemma NoEx_repopulate : forall fuel i codes s, NoEx s -> NoEx (fst (repopulate fuel i codes s)).
+Proof.
+  induction fuel as [|f IH]; intros i codes s H; cbn [repopulate]; [exact H|].
+  destruct (negb (pstate s =? 0)); [exact H|].
+  match goal with |- context [if ?c then Restart.step (rst s) (now s) else (rst s, false)] =>
+    destruct (if c then Restart.step (rst s) (now s) else (rst s, false)) as [r raised] end.
+  destruct raised; [exact H|].
+  destruct (avail_index (with_rst s r)) as [ix|]; [|exact H].
+  apply IH. intros p Hin. rewrite exited_start_worker.
+  cbn [wlist start_worker with_rst] in Hin. apply in_app_or in Hin. destruct Hin as [Hin|[<-|[]]].
+  - apply (H p Hin).
+  - unfold exited, get_proc. cbn [procs with_rst].
+    replace (Z.of_nat (length (procs s)) <? 0) with false by lia. rewrite Nat2Z.id.
+    replace (nth_error (procs s) (length (procs s))) with (@None proc); [reflexivity|].
+    symmetry. apply nth_error_None. lia.
+Qed.
+
+Lemma NoEx_join_exited s : NoEx (fst (join_exited s)).
+Proof.
+  destruct (join_exited_fields s) as (A & _ & _ & D & _). intros p Hin. rewrite A in Hin.
+  rewrite (exited_procs s _ D). unfold kept in Hin. apply filter_In in Hin.
+  destruct Hin as [_ H]. apply negb_true_iff in H. exact H.
+Qed.
+
+Lemma NoEx_do_tick s : NoEx (fst (do_tick s)).
+Proof.
+  unfold do_tick. pose proof (NoEx_join_exited s) as H.
+  destruct (join_exited s) as [s1 codes]. cbn [fst] in H.
+  pose proof (NoEx_repopulate (Z.to_nat (nprocs s1 - Z.of_nat (length (wlist s1)))) 0 codes s1 H) as H2.
+  destruct (repopulate _ 0 codes s1) as [s2 r]. cbn [fst] in H2. destruct r; cbn [fst]; exact H2.
+Qed.
+
+(* after a pass no worker whose exit has been recorded remains in the pool list ... *)
+Theorem tick_no_exited_left s p q :
+  In p (wlist (fst (do_tick s))) -> get_proc (fst (do_tick s)) p = Some q -> pexit q = None.
+Proof.
+  intros Hin Hg. pose proof (NoEx_do_tick s p Hin) as H. unfold exited in H. rewrite Hg in H.
+  destruct (pexit q); [discriminate|reflexivity].
+Qed.
+
+(* ... in particular every worker the pass reaped is gone from it *)
+Theorem tick_reaped_gone s p : In p (reaped s) -> ~ In p (wlist (fst (do_tick s))).
+Proof.
+  intros Hr Hin. pose proof (NoEx_do_tick s p Hin) as H.
+  assert (He : exited (fst (do_tick s)) p = exited s p).
+  { unfold do_tick. destruct (join_exited_fields s) as (_ & _ & _ & D & _).
+    destruct (join_exited s) as [s1 codes]. cbn [fst] in D.
+    pose proof (exited_repopulate (Z.to_nat (nprocs s1 - Z.of_nat (length (wlist s1)))) 0 codes s1 p) as H2.
+    destruct (repopulate _ 0 codes s1) as [s2 r]. cbn [fst] in H2.
+    rewrite <- (exited_procs s s1 D). destruct r; cbn [fst]; exact H2. }
+  unfold reaped in Hr. apply filter_In in Hr. destruct Hr as [_ Hr]. congruence.
+Qed.
